@@ -126,6 +126,11 @@ func (p *Pool) spawnWith(extra []string) (*worker, error) {
 
 func scrubbedEnv(gomax string) []string {
 	env := []string{"VERIF_WORKER=1", "GOMAXPROCS=" + gomax, "PATH=/usr/bin:/bin", "HOME=/nonexistent", "GOTRACEBACK=all", "TMPDIR=" + os.TempDir()}
+	for _, k := range []string{"VERIF_SCHED_TRACE", "VERIF_DEBUG"} {
+		if v := os.Getenv(k); v != "" {
+			env = append(env, k+"="+v)
+		}
+	}
 	return env
 }
 
@@ -238,16 +243,29 @@ func (p *Pool) Stop() {
 	close(p.results)
 }
 
-// RunOne runs a single job on a fresh worker process.
+// RunOne runs a single job on a fresh worker process. The trace of a run that kills the worker is recovered
+// from a log file the worker appends to.
 func RunOne(bin string, job *Job, gomax string) *Result {
 	p := &Pool{bin: bin, perJob: 180 * time.Second, gomax: gomax}
-	w, err := p.spawn()
+	var extra []string
+	logPath := ""
+	if f, err := os.CreateTemp("", "verif-log-"); err == nil {
+		logPath = f.Name()
+		f.Close()
+		defer os.Remove(logPath)
+		extra = append(extra, "VERIF_LOG_FILE="+logPath)
+	}
+	w, err := p.spawnWith(extra)
 	if err != nil {
 		return &Result{ID: job.ID, Prop: job.Prop, Seed: job.Seed, Trouble: "spawn: " + err.Error(), job: job}
 	}
 	res, alive := p.runOn(w, job)
 	if alive {
 		w.close()
+	} else if logPath != "" {
+		if data, err := os.ReadFile(logPath); err == nil {
+			res.Log = strings.Split(strings.TrimRight(string(data), "\n"), "\n")
+		}
 	}
 	return res
 }
